@@ -95,10 +95,10 @@ let () =
           else if is_trace then z_np_trace s f off (nat_of_int n1) (nat_of_int n2)
           else z_np_diagonal s f off (nat_of_int n1) (nat_of_int n2) in
         let m = if is_trace then z_trace s f off ax1 ax2 else z_diagonal s f off ax1 ax2 in
-        (* theorem domain: offset >= 0 and a non-empty diagonal (trace) / non-negative library extent (diagonal) *)
-        let e = if ok then int_of_z (diag_extent s off (nat_of_int n1) (nat_of_int n2)) else (-1) in
+        (* theorem domain: any offset; trace needs a non-empty diagonal *)
+        let e = if ok then int_of_z (np_diag_len s off (nat_of_int n1) (nat_of_int n2)) else (-1) in
         { model = show_res m; spec = show_optv sp;
-          dom = posb s && sp <> None && Z.leb Z0 off && (if is_trace then e >= 1 else e >= 0) }
+          dom = posb s && sp <> None && (if is_trace then e >= 1 else true) }
     | _ -> failwith "diag") in
   register "trace" (diag true);
   register "diagonal" (diag false)
